@@ -14,6 +14,8 @@ import icontract
 from liquid import BoundTemplate, DictLoader, Environment, RenderContext
 from liquid import output as output_mod
 
+from liquid.exceptions import ResourceLimitError
+
 from harness import core, drv
 from harness.gen import tpl
 from harness.gen import values as V
@@ -108,6 +110,9 @@ def make(case, mode: str, limits: dict[str, Any]):
     return drv.make_env(cfg, loader=DictLoader(dict(case["partials"])), base=MonEnv)
 
 
+HEAVY = {"output_stream_limit": 4_000_000, "loop_iteration_limit": 300_000, "local_namespace_limit": 4_000_000}
+
+
 def run(case, mode, limits, data):
     env = make(case, mode, limits)
     HOOK.update(writes=0, assigns=0, max_size=0, broken=None, limit=limits.get("local_namespace_limit"))
@@ -125,6 +130,12 @@ def construct(case) -> str:
 
 def judge(ctx: core.Ctx, case: dict[str, Any]) -> None:
     data = V.dec(case["data"])
+    # workload guard (never a verdict): a template whose unlimited render is enormous (a capture that echoes itself inside nested loops
+    # doubles on every iteration) is not rendered without limits at all
+    probe, _ = run(case, "strict", HEAVY, data)
+    if not probe.ok and isinstance(probe.exc, ResourceLimitError):
+        ctx.count("workload_too_heavy_skipped")
+        return
     base, h0 = run(case, "strict", {}, data)
     if not base.ok:
         ctx.count("unlimited_twin_failed_skipped")
